@@ -34,23 +34,48 @@ func c18r1(p *Program, r *Report) {
 			if !ok || !isCallTo(info, c, "(*framer).writeHeader") || len(c.Args) != 3 {
 				return true
 			}
-			n++
-			op := exprStr(c.Args[1])
-			clears := false
-			plain := false
-			a0 := ast.Unparen(c.Args[0])
-			if b, ok := a0.(*ast.BinaryExpr); ok && b.Op == token.AND_NOT && p.isField(info, b.X, "framer", "flags") {
-				if v, ok := constInt(info, b.Y); ok && v == 0x01 {
-					clears = true
+			// header flags: f.flags, f.flags &^ flagCompress, or a one-line helper returning one of them
+			classify := func(fn *FuncInfo, e ast.Expr) (clears, plain bool) {
+				finfo := fn.Pkg.TypesInfo
+				e = ast.Unparen(e)
+				if call, ok := e.(*ast.CallExpr); ok {
+					if f := calleeOf(finfo, call); f != nil {
+						if h := p.FuncOf(f); h != nil && h.Decl.Body != nil && len(h.Decl.Body.List) == 1 {
+							if rs, ok := h.Decl.Body.List[0].(*ast.ReturnStmt); ok && len(rs.Results) == 1 {
+								e = ast.Unparen(rs.Results[0])
+								finfo = h.Pkg.TypesInfo
+							}
+						}
+					}
 				}
+				if b, ok := e.(*ast.BinaryExpr); ok && b.Op == token.AND_NOT && p.isField(finfo, b.X, "framer", "flags") {
+					if v, ok := constInt(finfo, b.Y); ok && v == 0x01 {
+						clears = true
+					}
+				}
+				if p.isField(finfo, e, "framer", "flags") {
+					plain = true
+				}
+				return
 			}
-			if p.isField(info, a0, "framer", "flags") {
-				plain = true
-			}
-			if op == "opStartup" || op == "opOptions" {
-				r.Check(clears, c, fi.Name+" "+op+" header clears the compression bit", "f.flags &^ flagCompress", op+" is written with header flags "+exprStr(c.Args[0])+": the frame would be compressed although compression is only negotiated by STARTUP itself")
-			} else {
-				r.Check(plain, c, fi.Name+" "+op+" header uses the framer's flags", "f.flags", op+" is written with header flags "+exprStr(c.Args[0])+" instead of the framer's flags: the compression bit no longer follows the negotiation")
+			flagSites := p.effectiveArgs(fi, c, 0, 0)
+			for _, site := range p.effectiveArgs(fi, c, 1, 0) {
+				n++
+				op := exprStr(site.Expr)
+				// the flags expression that goes with this opcode: the one at the same call when both were passed
+				// through the wrapper, else the (single) flags expression of the writeHeader call
+				fe, ffn := c.Args[0], fi
+				for _, fs := range flagSites {
+					if fs.Call == site.Call {
+						fe, ffn = fs.Expr, fs.Fn
+					}
+				}
+				clears, plain := classify(ffn, fe)
+				if op == "opStartup" || op == "opOptions" {
+					r.Check(clears, site.Call, site.Fn.Name+" "+op+" header clears the compression bit", "f.flags &^ flagCompress", op+" is written with header flags "+exprStr(fe)+": the frame would be compressed although compression is only negotiated by STARTUP itself")
+				} else {
+					r.Check(plain, site.Call, site.Fn.Name+" "+op+" header uses the framer's flags", "f.flags", op+" is written with header flags "+exprStr(fe)+" instead of the framer's flags: the compression bit no longer follows the negotiation")
+				}
 			}
 			return true
 		})
@@ -60,217 +85,29 @@ func c18r1(p *Program, r *Report) {
 	}
 }
 
-func c18r2(p *Program, r *Report) {
-	fi := r.NeedFunc("(*framer).finish")
-	if fi == nil {
-		return
-	}
-	g := p.GraphOf(fi)
-	info := g.Info
-	var compIf *ast.IfStmt
-	ast.Inspect(fi.Decl.Body, func(x ast.Node) bool {
-		if ifs, ok := x.(*ast.IfStmt); ok && compIf == nil {
-			has := false
-			ast.Inspect(ifs.Body, func(m ast.Node) bool {
-				if c, ok := m.(*ast.CallExpr); ok && calleeName(info, c) == "Compressor.Encode" {
-					has = true
-				}
-				return true
-			})
-			if has {
-				compIf = ifs
-			}
-		}
-		return true
-	})
-	if compIf == nil {
-		r.Bad(fi.Decl, "(*framer).finish compresses the body", "finish never calls the compressor")
-		return
-	}
-	// condition: bit flagCompress of f.buf[1]
-	okCond := false
-	if b, ok := ast.Unparen(compIf.Cond).(*ast.BinaryExpr); ok {
-		if and, ok := ast.Unparen(b.X).(*ast.BinaryExpr); ok && and.Op == token.AND {
-			mask, okM := constInt(info, and.Y)
-			rhs, okR := constInt(info, b.Y)
-			if okM && okR && mask == 0x01 && (b.Op == token.EQL && rhs == mask || b.Op == token.NEQ && rhs == 0) && exprStr(and.X) == "f.buf[1]" {
-				okCond = true
-			}
-		}
-	}
-	r.Check(okCond, compIf, "(*framer).finish compresses iff the written flags byte has the compression bit", "f.buf[1]&flagCompress == flagCompress",
-		"the decision to compress ("+exprStr(compIf.Cond)+") is not taken from the flags byte actually written into the header: the body and the header's compression flag can disagree (STARTUP/OPTIONS compressed, or a flagged frame sent uncompressed)")
-	var encArg, replaced string
-	ast.Inspect(compIf.Body, func(m ast.Node) bool {
-		switch s := m.(type) {
-		case *ast.CallExpr:
-			if calleeName(info, s) == "Compressor.Encode" && len(s.Args) == 1 {
-				encArg = exprStr(s.Args[0])
-				// a local that names the body slice
-				if id, ok := ast.Unparen(s.Args[0]).(*ast.Ident); ok {
-					ast.Inspect(fi.Decl.Body, func(y ast.Node) bool {
-						if as, ok := y.(*ast.AssignStmt); ok && len(as.Lhs) == 1 && len(as.Rhs) == 1 {
-							if lid, ok := as.Lhs[0].(*ast.Ident); ok && info.Defs[lid] != nil && info.Defs[lid] == info.Uses[id] {
-								encArg = exprStr(as.Rhs[0])
-							}
-						}
-						return true
-					})
-				}
-			}
-		case *ast.AssignStmt:
-			if len(s.Lhs) == 1 && exprStr(s.Lhs[0]) == "f.buf" {
-				replaced = exprStr(s.Rhs[0])
-			}
-		}
-		return true
-	})
-	r.Check(encArg == "f.buf[f.headSize:]", compIf, "(*framer).finish compresses exactly the body", "Encode(f.buf[f.headSize:])", "the compressor is given "+encArg+" instead of the bytes after the header")
-	r.Check(strings.HasPrefix(replaced, "append(f.buf[:f.headSize], "), compIf, "(*framer).finish replaces the body by the compressed bytes", replaced, "the compressed bytes do not replace the body right after the header: "+replaced)
-	// length patched after compression on every success exit
-	ef := g.Events(func(st Step) []string {
-		if st.Kind != StNode {
-			return nil
-		}
-		var evs []string
-		for _, c := range callsIn(st.Node) {
-			switch calleeName(info, c) {
-			case "(*framer).setLength":
-				evs = append(evs, "setLength")
-			case "Compressor.Encode":
-				evs = append(evs, "encode")
-			}
-		}
-		return evs
-	})
-	for _, e := range g.Exits() {
-		rs, ok := e.Node.(*ast.ReturnStmt)
-		if !ok || len(rs.Results) != 1 || !isNil(info, rs.Results[0]) {
-			continue
-		}
-		s, _ := ef.ExitState(e)
-		r.Check(s.Must["setLength"], rs, "(*framer).finish patches the length on success", "setLength called", "finish returns success without patching the header length")
-	}
-	ast.Inspect(fi.Decl.Body, func(x ast.Node) bool {
-		if c, ok := x.(*ast.CallExpr); ok && isCallTo(info, c, "(*framer).setLength") {
-			r.Check(c.Pos() > compIf.End(), c, "(*framer).finish patches the length after compressing", "setLength after the compression block", "the length is computed before the body is replaced by its compressed form")
-			lenOK := false
-			if len(c.Args) == 1 {
-				a := exprStr(c.Args[0])
-				if a == "len(f.buf) - f.headSize" {
-					lenOK = true
-				} else if id, ok := ast.Unparen(c.Args[0]).(*ast.Ident); ok {
-					if def := localDef(info, fi, id); def != nil && exprStr(def) == "len(f.buf) - f.headSize" {
-						lenOK = true
-					}
-				}
-			}
-			r.Check(lenOK, c, "(*framer).finish length = bytes after the header", "len(f.buf) - f.headSize", "the patched length is not the number of bytes after the header")
-		}
-		return true
-	})
-}
-
-func c18r3(p *Program, r *Report) {
-	if nf := r.NeedFunc("newFramer"); nf != nil {
-		info := nf.Pkg.TypesInfo
-		ok := false
-		ast.Inspect(nf.Decl.Body, func(x ast.Node) bool {
-			ifs, isIf := x.(*ast.IfStmt)
-			if !isIf || exprStr(ifs.Cond) != "compressor != nil" {
-				return true
-			}
-			for _, st := range ifs.Body.List {
-				if as, isAs := st.(*ast.AssignStmt); isAs && as.Tok == token.OR_ASSIGN {
-					if v, isC := constInt(info, as.Rhs[0]); isC && v == 0x01 {
-						ok = true
-					}
-				}
-			}
-			return true
-		})
-		// and nowhere else
-		others := 0
-		ast.Inspect(nf.Decl.Body, func(x ast.Node) bool {
-			if as, isAs := x.(*ast.AssignStmt); isAs && as.Tok == token.OR_ASSIGN {
-				if v, isC := constInt(info, as.Rhs[0]); isC && v == 0x01 {
-					others++
-				}
-			}
-			return true
-		})
-		r.Check(ok && others == 1, nf.Decl, "newFramer sets the compression flag iff a compressor is configured", "flags |= flagCompress under compressor != nil only", "the framer's compression flag is not set exactly when a compressor is configured")
-	}
-	rf := r.NeedFunc("(*framer).readFrame")
-	if rf == nil {
-		return
-	}
-	g := p.GraphOf(rf)
-	info := g.Info
-	facts := g.GuardFacts()
-	n := 0
-	ast.Inspect(rf.Decl.Body, func(x ast.Node) bool {
-		c, ok := x.(*ast.CallExpr)
-		if !ok || calleeName(info, c) != "Compressor.Decode" {
-			return true
-		}
-		n++
-		f, _ := facts.Before(c)
-		nilV, nilK := f.KnownStr("f.compres == nil")
-		r.Check(nilK && !nilV, c, "(*framer).readFrame checks for a compressor before decoding", "f.compres != nil known", "a compressed frame is decoded without checking that a compressor is configured: nil dereference instead of an error")
-		// under the header's compression bit
-		ifs, _ := p.enclosing(c, rf.Decl, func(m ast.Node) bool {
-			i, ok := m.(*ast.IfStmt)
-			return ok && strings.Contains(exprStr(i.Cond), "flags")
-		}).(*ast.IfStmt)
-		okBit := false
-		if ifs != nil {
-			if b, ok := ast.Unparen(ifs.Cond).(*ast.BinaryExpr); ok {
-				if and, ok := ast.Unparen(b.X).(*ast.BinaryExpr); ok && and.Op == token.AND {
-					mask, okM := constInt(info, and.Y)
-					rhs, okR := constInt(info, b.Y)
-					if okM && okR && mask == 0x01 && (b.Op == token.EQL && rhs == 1 || b.Op == token.NEQ && rhs == 0) && strings.HasSuffix(exprStr(and.X), "head.flags") {
-						okBit = true
-					}
-				}
-			}
-		}
-		r.Check(okBit, c, "(*framer).readFrame decompresses iff the header's compression flag is set", "head.flags&flagCompress == flagCompress", "decompression is not decided by the compression bit of the received header")
-		// error propagated
-		as, _ := p.Parent(c).(*ast.AssignStmt)
-		okErr := false
-		if as != nil {
-			if i, list := p.stmtIndex(as); i >= 0 && i+1 < len(list) {
-				if nif, ok := list[i+1].(*ast.IfStmt); ok && exprStr(nif.Cond) == "err != nil" && p.terminates(info, nif.Body.List) {
-					if rs, ok := nif.Body.List[len(nif.Body.List)-1].(*ast.ReturnStmt); ok && len(rs.Results) == 1 && !isNil(info, rs.Results[0]) {
-						okErr = true
-					}
-				}
-			}
-		}
-		r.Check(okErr, c, "(*framer).readFrame propagates a decompression error", "Decode's error returned", "a corrupt compressed body is not reported as an error")
-		return true
-	})
-	if n == 0 {
-		r.Bad(rf.Decl, "(*framer).readFrame decompresses flagged frames", "readFrame never calls Decode")
-	}
-	// the nil-compressor branch returns an error
-	okNil := false
-	ast.Inspect(rf.Decl.Body, func(x ast.Node) bool {
-		if ifs, ok := x.(*ast.IfStmt); ok && exprStr(ifs.Cond) == "f.compres == nil" && p.terminates(info, ifs.Body.List) {
-			if rs, ok := ifs.Body.List[len(ifs.Body.List)-1].(*ast.ReturnStmt); ok && len(rs.Results) == 1 && !isNil(info, rs.Results[0]) {
-				okNil = true
-			}
-		}
-		return true
-	})
-	r.Check(okNil, rf.Decl, "(*framer).readFrame: compressed frame without compressor is an error", "returns an error", "a compressed response on a connection without compressor is not an error")
-}
-
 func c18r4(p *Program, r *Report) {
-	fi := r.NeedFunc("(*startupCoordinator).startup")
-	if fi == nil {
+	startup := r.NeedFunc("(*startupCoordinator).startup")
+	if startup == nil {
 		return
+	}
+	// the function that decides the COMPRESSION option: startup itself or the helper the decision was moved into
+	fi := startup
+	for _, cand := range append([]*FuncInfo{startup}, p.privateCallees(startup)...) {
+		found := false
+		ast.Inspect(cand.Decl.Body, func(x ast.Node) bool {
+			if as, ok := x.(*ast.AssignStmt); ok && len(as.Lhs) == 1 {
+				if ix, ok := ast.Unparen(as.Lhs[0]).(*ast.IndexExpr); ok {
+					if sv, ok := constString(cand.Pkg.TypesInfo, ix.Index); ok && sv == "COMPRESSION" {
+						found = true
+					}
+				}
+			}
+			return true
+		})
+		if found {
+			fi = cand
+			break
+		}
 	}
 	g := p.GraphOf(fi)
 	info := g.Info
@@ -281,7 +118,18 @@ func c18r4(p *Program, r *Report) {
 			return false
 		}
 		s, ok := constString(info, ix.Index)
-		return ok && s == "COMPRESSION" && exprStr(ix.X) == "m"
+		if !ok || s != "COMPRESSION" {
+			return false
+		}
+		// the options map, not the server's SUPPORTED multimap
+		if t := info.TypeOf(ix.X); t != nil {
+			if m, ok := t.Underlying().(*types.Map); ok {
+				if b, ok := m.Elem().Underlying().(*types.Basic); ok && b.Kind() == types.String {
+					return true
+				}
+			}
+		}
+		return false
 	}
 	n := 0
 	ast.Inspect(fi.Decl.Body, func(x ast.Node) bool {
@@ -301,7 +149,7 @@ func c18r4(p *Program, r *Report) {
 					src = exprStr(def)
 				}
 			}
-			okLoop = strings.Contains(src, `supported["COMPRESSION"]`)
+			okLoop = strings.Contains(src, `["COMPRESSION"]`) && !strings.Contains(src, "opts[") && !strings.HasPrefix(src, "m[")
 		}
 		eq := false
 		for atom, v := range f.m {
@@ -363,6 +211,18 @@ func c18r4(p *Program, r *Report) {
 		},
 	})
 	nw := 0
+	if fi != startup {
+		// decided in a helper: the obligation holds at every return of the helper (STARTUP is written after it)
+		for _, e := range g.Exits() {
+			if e.Kind == ExitPanic {
+				continue
+			}
+			nw++
+			s, reach := sol.AtExit(e)
+			r.Check(reach && !s.open, e.Node, fi.Name+": compressor cleared whenever COMPRESSION is not requested", "at every return either COMPRESSION was requested or conn.compressor = nil",
+				"a path leaves the negotiation with a compressor still configured although COMPRESSION was not requested (e.g. the server advertises only other algorithms): STARTUP negotiates no compression but every later request is compressed")
+		}
+	}
 	ast.Inspect(fi.Decl.Body, func(x ast.Node) bool {
 		c, ok := x.(*ast.CallExpr)
 		if !ok || !isCallTo(info, c, "(*startupCoordinator).write") {
